@@ -120,6 +120,8 @@ CURATED += [
     ('string_escape_align', ['string a\\nb\\t\\x41', 'L0:', 'align 4', 'L1:', 'dw L1', 'dw L0']),
     ('offset_after_padded_align', ['dh 1', 'align 4', 'L1:', FC, 'addi x5 x5 %offset(L1)', 'dw %offset(L1)', 'db 1', 'align 8', 'pack <i %offset(L1)', 'j L1']),
     ('offset_after_gap_align', [G(0), 'align 16', 'L1:', F4, 'dw %offset(L1)', 'lw x5 x6 %offset(L1)', 'beq x8 x0 L1']),
+    ('position_wide', ['dd %position(L1, WIDE)', 'pack <q %position(L1, WIDE)', 'li x7 %position(L1, WIDE)', G(0), 'L1:', F4, 'pack >q %position(L1, WIDE)']),
+    ('aligns_decreasing', ['dh 1', 'align 4', 'align 3', 'L1:', 'db 1', 'align 8', 'align 6', 'L2:', 'dw L1', 'align 6', 'align 4', 'L3:', 'dw L2', 'dw L3']),
     ('label_between_aligns', ['dh 1', 'align 4', 'L1:', 'align 8', 'L2:', 'dw L1', 'dw L2']),
 ]
 
@@ -168,6 +170,8 @@ def enumerated(max_len, seed, limit):
 SYMBOLIC_ALIGN = [
     ('align_symN', ['dh 1', G(0), 'align @N0@', 'L1:', 'dw L1', 'db 1', 'align @N1@', 'L2:', 'dw L2']),
     ('align_symN_code', [FC, G(0), 'align @N0@', 'L1:', F4, 'dw L1', 'dw %offset(L1)']),
+    ('align_symN_adjacent', ['dh 1', G(0), 'align @N0@', 'L0:', 'align @N1@', 'L1:', 'dw L1', 'dw L0']),
+    ('align_symN_adjacent3', ['db 1', 'align @N0@', 'align @N1@', 'K9 = 1', 'align @N2@', 'L1:', 'db 2', 'dw L1']),
 ]
 
 
